@@ -233,6 +233,9 @@ func (m *ctMap) Iter(f maps.IterCallback) error {
 		if f(kb[:], realValue(e)) == maps.IterDelete {
 			panic("scanner asked for an immediate delete although a BPF cleaner is configured")
 		}
+		// a callback takes time (Model.tick1)
+		m.clk.k++
+		m.clk.g++
 	}
 	m.play(m.sched[len(m.order)])
 	return nil
